@@ -48,6 +48,8 @@ def other_corpus(rng, n_notes):
     out += [('tandem', x + sfx) for x in G.TANDEMS if x not in structural_tandems and not x.startswith('*xywh')
             for sfx in (':2', ':12', 'x', '.5')]
     out += [('text', x) for x in G.WORDS + G.HOSTILE_WORDS + G.SEPARATOR_WORDS]
+    # cells made only of blanks: a token like any other in a non-kern spine (its text, its spine's own category)
+    out += [('text', x) for x in (' ', '  ', '\u3000', '\xa0', '\x0c', ' \u2028', '\x1f', '\u2003 ', '\ufeff', '\u200b')]
     # a character outside the lexer's alphabet next to a structural token: the cell is free text as a whole
     for u in ('§', '€', 'ß', 'ø', '¿', '日', 'ü', '–', '“', '\x07'):
         for st in ('.', '=', '*', '*clefG2', '=1', '*M3/4', '==', '*staff1'):
